@@ -100,7 +100,7 @@ def pos_weights(n):
 
 @st.composite
 def curves(draw, pmin=0, pmax=4, kmax=4, rational=None, dim=None, nums=("frac",),
-           interval=None, grid=None, degree=None, values=None, regimes=None):
+           interval=None, grid=None, degree=None, values=None, regimes=None, negweights=True):
     """A curve case dict {'U','p','P','w','num'}."""
     if regimes is None:
         regimes = "std" if interval is None and values is None else False  # callers that fix interval / values keep them
@@ -110,6 +110,9 @@ def curves(draw, pmin=0, pmax=4, kmax=4, rational=None, dim=None, nums=("frac",)
     if rational is None:
         rational = draw(st.booleans())
     w = draw(pos_weights(n)) if rational else None
+    if w is not None and negweights and draw(st.integers(0, 7)) == 0:
+        # the same rational curve written with all weights negative (the weight function still has no zero)
+        w = [-x for x in w]
     num = draw(st.sampled_from(list(nums)))
     if regimes and num in ("frac", "fracint") and draw(st.integers(0, 7)) == 0:
         # numeric regimes, exact profile only: knots around +-1e6, very short / very long parameter intervals,
@@ -118,8 +121,13 @@ def curves(draw, pmin=0, pmax=4, kmax=4, rational=None, dim=None, nums=("frac",)
         U = [a0 + sc * u for u in U]
         # tiny control points only on request ("all"): operations that accept a removal within the library's
         # absolute 1e-9 tolerance (clean, knot_remove, degree_decrease, join, derivative) legitimately smooth them
-        ps = draw(st.sampled_from([F(1), F(1), F(10 ** 8)] + ([F(1, 10 ** 8), F(1, 10 ** 11)] if regimes == "all" else [])))
-        if ps != 1:
+        ps = draw(st.sampled_from([F(1), F(1), F(10 ** 8)] + ([F(1, 10 ** 8), F(1, 10 ** 11), F(1, 10 ** 20), "axis"]
+                                                              if regimes == "all" else [])))
+        if ps == "axis":
+            # one coordinate axis many orders of magnitude below the others
+            tiny = F(1, 10 ** 18)
+            P = [x * tiny for x in P] if not isinstance(P[0], list) else [[c * tiny] + list(x[1:]) for x in P for c in [x[0]]]
+        elif ps != 1:
             P = [x * ps for x in P] if not isinstance(P[0], list) else [[c * ps for c in x] for x in P]
     out = {"U": U, "p": p, "P": P, "w": w, "num": num}
     if isinstance(P[0], list) and draw(st.integers(0, 3)) == 0:
@@ -149,7 +157,8 @@ def params_of(U, extra=2):
 @st.composite
 def outside_params(draw, U):
     a, b = U[0], U[-1]
-    d = draw(st.sampled_from([F(1, 1000), F(1, 7), F(1), F(10)]))
+    # (also a hair outside: a tolerance at the ends would turn "raises ValueError" into a value)
+    d = draw(st.sampled_from([F(1, 1000), F(1, 7), F(1), F(10), F(1, 10 ** 12), F(1, 10 ** 10), F(1, 10 ** 30)]))
     return draw(st.sampled_from([a - d, b + d]))
 
 
